@@ -511,7 +511,13 @@ pub fn run(ctx: &Ctx) -> i32 {
                     ));
                 }
                 let mut reg = bits::RegStats::default();
-                let r_on = garble_lang::register_circuit::Circuit::from(gl::ssa(&on));
+                let r_on = match crate::util::catch(|| garble_lang::register_circuit::Circuit::from(gl::ssa(&on))) {
+                    Ok(r) => r,
+                    Err(p) => {
+                        ctx.violation(&format!("conversion of a compiled join program to a register circuit panicked: {p}"), json!({"kind": "program", "program": case.src}));
+                        continue;
+                    }
+                };
                 'cases: for chunk in inputs.chunks(64) {
                     let encs: Vec<Vec<bool>> = chunk
                         .iter()
